@@ -679,6 +679,12 @@ func (c *FailoverController) executeFailback(reason string, timerGen uint64) {
 	}
 
 	c.mu.Lock()
+	if c.currentRole != oldRole {
+		// Another failback (started after this one was cancelled and re-armed while its
+		// callback ran) has already committed; the state now belongs to whatever followed.
+		c.mu.Unlock()
+		return
+	}
 	c.currentRole = newRole
 	c.state = FailoverStateNormal
 	c.lastRoleChange = time.Now()
